@@ -356,7 +356,8 @@ def split_spec(line):
 def compare_case(cmds, impl, model, mode, tol, bits=50, view="full"):
     """returns list of findings for one case: (kind, cmd_index, impl_line, model_line, spec).
     Lines are compared through the property's view: what the view drops cannot raise an alarm."""
-    vf = VIEWS[view]
+    nf_ok = view.endswith("+nf")      # families without arithmetic: non-finite values are ordinary data
+    vf = VIEWS[view.split("+")[0]]
     out = []
     n = min(len(impl), len(model))
     if len(impl) != len(cmds) or len(model) != len(cmds):
@@ -370,7 +371,7 @@ def compare_case(cmds, impl, model, mode, tol, bits=50, view="full"):
         if mode == "exact" and not (line_representable(ml, bits) and (spec is None or line_representable(spec, bits))):
             out.append(("inexact", i, il, ml, spec))
             break
-        if mode != "exact" and (NONFINITE.search(ml) or (spec is not None and NONFINITE.search(spec))):
+        if mode != "exact" and not nf_ok and (NONFINITE.search(ml) or (spec is not None and NONFINITE.search(spec))):
             # NaN / infinity: the program left the operations' domain; nothing is claimed there
             out.append(("inexact", i, il, ml, spec))
             break
